@@ -187,6 +187,60 @@ def check(rng, deep):
         if (sorted(d1.inputs), sorted(d1.outputs)) != want_all or (sorted(d2.inputs), sorted(d2.outputs)) != want_some or (sorted(d3.inputs), sorted(d3.outputs)) != want_some:
             C.push(out, dict(what=f'the interface of a block derived from a {label} depends on which other blocks were derived from the same base before', input=inp,
                              observed=dict(second=sorted(d2.inputs), removed=sorted(d3.inputs)), expected=dict(inputs=want_some[0]), signature=dict(op='history-dependence', block=label, call='add_hetinputs')))
+    # bounded multivariate solves: the penalised residual remembers its last valid value; that memory belongs to ONE wrapper / ONE solve
+    from sequence_jacobian.blocks.support import steady_state as sst
+    nr = np.random.default_rng(rng.randint(0, 2 ** 31))
+
+    def mk(kbar, a):
+        def f(x):
+            x = np.asarray(x, float)
+            with np.errstate(all='ignore'):
+                return np.array([a * np.log(x[0] - kbar) + x[1] - 1.0, x[0] / x[1] - 3.0])
+        return f
+    fs = [mk(2.0, 0.3), mk(-5.0, 0.7)]                 # the first is NaN for x0 < 2, the second is defined everywhere in its box
+    bnds = [{'K': (0.5, 20.0), 'L': (0.05, 10.0)}, {'K': (0.5, 20.0), 'L': (0.05, 10.0)}]
+
+    def outcome(g, x):
+        try:
+            return ('ok', np.asarray(g(np.array(x))).tolist())
+        except Exception as ex:
+            return ('raise', type(ex).__name__)
+    for _ in range(6 if deep else 3):
+        n += 1
+        ws = [sst.residual_with_linear_continuation(f, b) for f, b in zip(fs, bnds)]
+        seq = [(int(nr.integers(0, 2)), [float(nr.uniform(0.2, 22.0)), float(nr.uniform(0.02, 11.0))]) for _ in range(12)]
+        seq[0] = (0, [1.0, 0.5])                         # first wrapper first sees its undefined region ...
+        seq[1] = (1, [4.0, 1.0])                         # ... then the other wrapper records a valid value
+        seq[2] = (0, [1.2, 0.7])
+        together = [outcome(ws[i], x) for i, x in seq]
+        for i in (0, 1):
+            alone_w = sst.residual_with_linear_continuation(fs[i], bnds[i])
+            alone = [outcome(alone_w, x) for j, x in seq if j == i]
+            mixed = [o for (j, _), o in zip(seq, together) if j == i]
+            if alone != mixed:
+                k = next(k for k in range(len(alone)) if alone[k] != mixed[k])
+                C.push(out, dict(what='a bounded (penalised) residual gives different values depending on whether another bounded residual was evaluated in between', input=dict(kind='audit',
+                                 call='residual_with_linear_continuation interleaved', sequence=seq, wrapper=i), observed=mixed[k], expected=alone[k], signature=dict(op='history-dependence', call='bounded-residual')))
+                break
+    history.append('bounded residual wrappers interleaved')
+    for solver in ('broyden_custom', 'newton_custom'):
+        n += 1
+
+        def solveB():
+            try:
+                return ('ok', [float(v) for v in sst.solve_for_unknowns(lambda x: fs[0](x), {'K': (0.5, 1.0, 20.0), 'L': (0.05, 0.5, 10.0)}, solver, {}, constrained_kwargs={}).values()])
+            except Exception as ex:
+                return ('raise', type(ex).__name__)
+        b1 = solveB()
+        try:
+            sst.solve_for_unknowns(lambda x: fs[1](x), {'K': (0.5, 4.0, 20.0), 'L': (0.05, 1.0, 10.0)}, solver, {}, constrained_kwargs={})
+        except Exception:
+            pass
+        b2 = solveB()
+        if b1 != b2:
+            C.push(out, dict(what=f'the outcome of a bounded {solver} solve depends on whether another bounded solve ran before it', input=dict(kind='audit', call=f'solve_for_unknowns[{solver}] B, A, B'),
+                             observed=b2, expected=b1, signature=dict(op='history-dependence', call='bounded-solve', solver=solver)))
+    history.append('bounded solves B, A, B')
     return out, n, history
 
 
@@ -200,7 +254,7 @@ def oracle(ctx, hints, broken):
                 rule='runtime audit of a shared-object call history (steady_state, jacobian, partial_jacobians reuse, linear/nonlinear impulses and their general-equilibrium '
                      'versions on a simple-block model, a nested solved block, a remapped solved block with its own factorisation, one-asset households with and without '
                      'hetoutputs, internals as dict and list; a previous SteadyStateDict with internals re-used as the calibration of steady_state / solve_steady_state): deep snapshots of every argument and of the block objects (incl. function defaults) before/after, repeated-'
-                     'call bit equality, storage sharing between results and arguments, first calls repeated after the history')
+                     'call bit equality, storage sharing between results and arguments, first calls repeated after the history; bounded (penalised) residual wrappers interleaved vs each alone, and a bounded solve repeated after another bounded solve')
 
 
 def replay(rp):
